@@ -150,21 +150,23 @@ def run_job(job):
         res['error'] = 'checker: %r %s' % (ex, traceback.format_exc()[-800:])
     if prop == 'C16' and 'error' not in res and rc == 0:
         # same program, same seed, logger detached: everything but the logger's own records must be identical
-        logp2 = logp + '.nolog'
-        rc2, out2, err2 = vlib.run_bin(binp, [a for a in args if not a.startswith('log=')] + ['log=' + logp2, 'useLogger=0'], timeout=600)
-        try:
-            with open(logp) as f1: a1 = [l for l in f1 if l[0] not in 'tuwxrMB']
-            with open(logp2) as f2: a2 = [l for l in f2 if l[0] not in 'tuwxrMB']
-            res['summary']['stats']['C16.logger-detached-comparisons'] = 1
-            res['summary']['stats']['C16.lines-compared-with-logger-detached'] = len(a1)
-            if a1 != a2:
-                i = 0
-                while i < min(len(a1), len(a2)) and a1[i] == a2[i]: i += 1
-                res['summary']['violations']['C16.detach|behaviour-differs-with-logger-detached'] = {'property': 'C16', 'count': 1, 'first': {'line': i, 'with-logger': a1[i:i + 3], 'without': a2[i:i + 3]}}
-        except Exception as ex:
-            res['error'] = 'pair compare: %r' % ex
-        try: os.unlink(logp2)
-        except OSError: pass
+        # ... and with the logger attached and detached at random between operations (attachLogger())
+        for mode, suffix, key in ((0, '.nolog', 'detach|behaviour-differs-with-logger-detached'), (2, '.toggle', 'detach|behaviour-differs-when-the-logger-is-attached-and-detached-between-operations')):
+            logp2 = logp + suffix
+            rc2, out2, err2 = vlib.run_bin(binp, [a for a in args if not a.startswith('log=')] + ['log=' + logp2, 'useLogger=%d' % mode], timeout=600)
+            try:
+                with open(logp) as f1: a1 = [l for l in f1 if l[0] not in 'tuwxrMB']
+                with open(logp2) as f2: a2 = [l for l in f2 if l[0] not in 'tuwxrMB']
+                res['summary']['stats']['C16.logger-detached-comparisons'] = res['summary']['stats'].get('C16.logger-detached-comparisons', 0) + 1
+                res['summary']['stats']['C16.lines-compared-with-logger-detached'] = res['summary']['stats'].get('C16.lines-compared-with-logger-detached', 0) + len(a1)
+                if a1 != a2:
+                    i = 0
+                    while i < min(len(a1), len(a2)) and a1[i] == a2[i]: i += 1
+                    res['summary']['violations']['C16.' + key] = {'property': 'C16', 'count': 1, 'first': {'line': i, 'with-logger': a1[i:i + 3], 'other-run': a2[i:i + 3]}}
+            except Exception as ex:
+                res['error'] = 'pair compare: %r' % ex
+            try: os.unlink(logp2)
+            except OSError: pass
     if not keep:
         try: os.unlink(logp)
         except OSError: pass
